@@ -1,0 +1,26 @@
+"""Optional execution tracing of the simulator (off by default).
+
+When the environment variable ``ACNPORTAL_VERIF`` is set to ``1`` *and* a sink has been
+installed with :func:`set_sink`, the simulator reports the points at which its state
+changes (events processed, scheduler returned, schedule stored, period applied, run
+finished) to that sink. Without the variable, or without a sink, :func:`emit` does nothing.
+The sink receives ``(point_name, simulator, fields)`` and must not modify the simulator.
+"""
+import os
+
+ENABLED = os.environ.get("ACNPORTAL_VERIF") == "1"
+_sink = None
+
+
+def set_sink(sink):
+    """ Install (or, with None, remove) the trace sink. Returns the previous sink. """
+    global _sink
+    previous = _sink
+    _sink = sink
+    return previous
+
+
+def emit(point, sim, **fields):
+    """ Report one trace point; a no-op unless tracing is enabled and a sink is installed. """
+    if ENABLED and _sink is not None:
+        _sink(point, sim, fields)
